@@ -10,6 +10,10 @@ import OVM.Hex.CheckedConv
 import OVM.Hex.VerticesPattern
 import OVM.Hex.ApiAll
 import OVM.Hex.SheetGeneral
+import OVM.Hex.FrameClassify
+import OVM.Hex.SheetAdj
+import OVM.Hex.FrameB
+import OVM.Hex.CubeAllDemo
 /-
   C16 — hexahedral kernel: shape and halfface-order invariants, hex navigation.
   Part 1 is about the tables *generated from the C++ sources* (OVM.Gen.HexTables, T2): an edit of an
@@ -65,13 +69,22 @@ import OVM.Hex.SheetGeneral
     `orthogonal_orientation` layout, `hex_vertices` pattern (`add_cell_vertices_conv`, `add_cell_vertices_shape_layout`,
     `add_cell_vertices_hex_vertices`), and all 720 permutations of such a hexahedron for all stored rotations
     (`frame_all_permutations`: never rejected, never stored out of convention).
-  * PARTIAL: that a cell accepted by the checked `add_cell(halffaces)` (closed surface of six proper loop quads, eight
-    vertices, convention) is a `Frame` — the combinatorial classification — is not proved, so for such cells the
-    `orthogonal_orientation` layout, the `hex_vertices` pattern and `frame_all_permutations` are not derived
-    (`hexCopy_all_permutations_partial` covers renamed copies of the standard cube); the layout / pattern predicates
-    are not carried through renumbering operations (only `HexConv` and the vertex count are); `adjacent_halfface_on_sheet`,
-    `adjacent_halfface_on_surface`, `neighboring_outside_halfface` have no specification in OVM/Hex/Spec.lean and are
-    compared model-vs-code only; `add_cell_vertices_cube_partial` / `…_glued_partial` remain as evaluated instances.
+  * CLASSIFICATION (Part 6, builder round 5): a cell accepted by the topology-checked `add_cell(halffaces)` — six valid
+    proper loop quads, no hypothesis on other edges — IS a `Frame` (`checked_add_cell_is_frame`; OVM/Hex/QuadBelt.lean,
+    FrameClassify.lean), so the `orthogonal_orientation` layout, the `hex_vertices` pattern and "all 720 permutations are
+    accepted and stored in convention" hold for it exactly as for cells from `add_cell(8 vertices)`
+    (`checked_add_cell_shape_layout`, `checked_add_cell_hex_vertices`, `checked_add_cell_all_permutations`).
+  * HISTORIES (Part 8): the cube structure of EVERY live cell (`CubeAll`: convention + closed surface + proper loop quads,
+    a renaming-invariant Boolean predicate) is carried through every operation of the public API in every deletion mode
+    (`cube_structure_run_api`, on the generic machinery of OVM/Hex/Stable.lean / ConvAll.lean); on the final state every
+    live cell has cube cycles and is a `Frame`, so the
+    `orthogonal_orientation` layout and the `hex_vertices` pattern hold for every cell of every reachable state, not only
+    for the newest one (`layout_on_reachable_states`, `hex_vertices_on_reachable_states`).
+  * PARTIAL: `set_edge / set_face / set_cell` and cells stored by the unchecked `add_cell(halffaces, false)` are outside
+    (caller's obligation); `adjacent_halfface_on_sheet` is specified (`SheetAdjSpec`, OVM/Hex/SheetAdj.lean) and proved on two glued
+    `Frame` cells, both ways of the C++ (Part 7); what it returns when the cell behind the side face is missing, and
+    `adjacent_halfface_on_surface`, `neighboring_outside_halfface`, have no specification and are compared model-vs-code only; `add_cell_vertices_cube_partial` /
+    `…_glued_partial` remain as evaluated instances.
 -/
 namespace OVM.Props.C16
 open OVM OVM.Kernel OVM.Gen.HexTables OVM.Kernel.HexAll
@@ -670,5 +683,267 @@ example : FullHistoryOK {} demoOps ∧ FullHistoryOK {} demoOps2 ∧ ShapeAll8 (
   have h1 : FullHistoryOK {} demoOps := full_of_api _ _ (apiHistoryOK_of_B _ _ (by decide +kernel)) (by decide)
   have h2 : FullHistoryOK {} demoOps2 := full_of_api _ _ (apiHistoryOK_of_B _ _ (by decide +kernel)) (by decide)
   exact ⟨h1, h2, (hex_reachable_api demoOps h1).2.2.2, (hex_reachable_api demoOps2 h2).2.2.2⟩
+
+/-! ## Part 6: the classification — a cell accepted by the topology-checked add_cell(halffaces) IS a hexahedron (`Frame`) -/
+
+/-- **the classification theorem.**  On a state satisfying the reachability invariant, let the topology-checked
+    `add_cell(halffaces)` accept six valid, live, free halffaces (`HexOpOK`) that are proper loop quads (`ProperQuad`:
+    four chained halfedges through four distinct vertices — what `add_face(vertices)` and the checked
+    `add_face(halfedges)` produce).  Then the
+    stored cell is a `Frame`: there are eight distinct vertices `vs` such that the six stored halffaces are loops through
+    the vertex quadruples of the source tables of `add_cell(8 vertices)`, each in some stored rotation `rot i` — i.e.
+    the cell is combinatorially the hexahedron, exactly as if it had been created by `add_cell(8 vertices)`; the stored
+    list is a permutation of the given one.  Route (OVM/Hex/QuadBelt.lean, FrameClassify.lean): the base class has
+    verified the closed surface, the guard of 7800c85 makes the three opposite pairs vertex-disjoint, the walk clause
+    puts the four side halffaces around the first one in cyclic order; the reverse of the arc of a side face that
+    leaves a top vertex can then lie in the next side face only, and the reverses of the four lower arcs of the side
+    faces in the second halfface only (`QB.Belt.classify`; the eight-vertex guard of 7b999c9 is not needed for this).
+    No hypothesis on other edges of the mesh: the override has no parallel-edge guard, but the surface being closed, the
+    opposite of every halfedge of the cell is the halfedge the tables give (`FrameCore.opp_of_closed`), and a parallel
+    edge between two of the cell's vertices that the cell does not use is harmless (`checked_add_cell_frame_parallel_edge`). -/
+theorem checked_add_cell_is_frame (k : Kernel) (hfs : List Nat) (c : Nat) (hi : Global.GInv k)
+    (hok : HexOpOK k (.base (.addCell true hfs))) (hpq : ∀ hf ∈ hfs, ProperQuad k hf)
+    (h : (k.hexAddCell hfs true).2 = some c) :
+    ∃ vs rot, Frame (k.hexAddCell hfs true).1 vs ((k.hexAddCell hfs true).1.cellAt c) rot ∧
+      ((k.hexAddCell hfs true).1.cellAt c).Perm hfs := by
+  obtain ⟨vs, rot, _, F, hp⟩ := hexAddCell_checked_frame k hfs c hi (fun hf hm => (hok.1 hf hm).1) hpq h
+  exact ⟨vs, rot, F, hp⟩
+
+/-- **the classification without `UniqEdges`**: whatever other edges the mesh holds, the six halffaces stored by an
+    accepted topology-checked `add_cell(halffaces)` on proper loop quads are loops through the vertex quadruples of the
+    source tables of `add_cell(8 vertices)` — `(v3,v2,v1,v0)`, `(v7,v6,v5,v4)`, `(v1,v2,v6,v7)`, `(v4,v5,v3,v0)`,
+    `(v1,v7,v4,v0)`, `(v2,v3,v5,v6)`, each from some rotation on — over eight distinct vertices (`Cyc`,
+    OVM/Hex/VerticesGeneral.lean; read in the state before the call: `add_cell` changes neither faces nor edges).  In
+    particular the cell itself never uses two parallel edges, although the override has no parallel-edge guard: its
+    twelve edges join twelve different vertex pairs. -/
+theorem checked_add_cell_cube_cycles (k : Kernel) (hfs : List Nat) (c : Nat) (hi : Global.GInv k)
+    (hok : HexOpOK k (.base (.addCell true hfs))) (hpq : ∀ hf ∈ hfs, ProperQuad k hf)
+    (h : (k.hexAddCell hfs true).2 = some c) :
+    ∃ x0 x1 x2 x3 x4 x5 v0 v1 v2 v3 v4 v5 v6 v7, (k.hexAddCell hfs true).1.cellAt c = [x0, x1, x2, x3, x4, x5] ∧
+      [v0, v1, v2, v3, v4, v5, v6, v7].Nodup ∧
+      Cyc k x0 [v3, v2, v1, v0] ∧ Cyc k x1 [v7, v6, v5, v4] ∧ Cyc k x2 [v1, v2, v6, v7] ∧
+      Cyc k x3 [v4, v5, v3, v0] ∧ Cyc k x4 [v1, v7, v4, v0] ∧ Cyc k x5 [v2, v3, v5, v6] :=
+  hexAddCell_checked_cycles k hfs c hi (fun hf hm => (hok.1 hf hm).1) hpq h
+
+/-- hence the cell has six halffaces, eight distinct vertices and the layout that `orthogonal_orientation` describes … -/
+theorem checked_add_cell_shape_layout (k : Kernel) (hfs : List Nat) (c : Nat) (hi : Global.GInv k)
+    (hok : HexOpOK k (.base (.addCell true hfs))) (hpq : ∀ hf ∈ hfs, ProperQuad k hf)
+    (h : (k.hexAddCell hfs true).2 = some c) :
+    (k.hexAddCell hfs true).1.hexCellShapeB c = true ∧ (k.hexAddCell hfs true).1.hexOrthLayoutB c = true :=
+  ⟨hexAddCell_checked_shape k hfs c h,
+   hexAddCell_checked_orthLayout k hfs c hi (fun hf hm => (hok.1 hf hm).1) hpq h⟩
+
+/-- … `hex_vertices` of the new cell reports the documented cube pattern (face incidences enabled: the walk of
+    `HexVertexIter` uses `adjacent_halfface_in_cell`) … -/
+theorem checked_add_cell_hex_vertices (k : Kernel) (hfs : List Nat) (c : Nat) (hi : Global.GInv k)
+    (hok : HexOpOK k (.base (.addCell true hfs))) (hfb : k.fBU = true) (hpq : ∀ hf ∈ hfs, ProperQuad k hf)
+    (h : (k.hexAddCell hfs true).2 = some c) :
+    ∃ r, (k.hexAddCell hfs true).1.hexVertices c = some r ∧ (k.hexAddCell hfs true).1.hexVertsPatternB c r = true :=
+  hexAddCell_checked_pattern k hfs c hi hok hfb hpq h
+
+/-- … and **if one arrangement of six halffaces is accepted, every one of its 720 permutations is accepted**, stored as a
+    re-arrangement in convention, and stored as given exactly when `check_halfface_ordering` accepts it, its first two
+    halffaces then being vertex-disjoint: the checked call never rejects a permuted valid list -/
+theorem checked_add_cell_all_permutations (k : Kernel) (hfs : List Nat) (c : Nat) (hi : Global.GInv k)
+    (hok : HexOpOK k (.base (.addCell true hfs))) (hpq : ∀ hf ∈ hfs, ProperQuad k hf)
+    (h : (k.hexAddCell hfs true).2 = some c) (p : List Nat) (hp : p.Perm hfs) :
+    (k.hexAddCell p true).2 = some k.nC ∧ (k.hexAddCell p true).1.hexConvB k.nC = true ∧
+    ((k.hexAddCell p true).1.cellAt k.nC).Perm p ∧
+    (k.hexCheckOrdering p = true → (k.hexAddCell p true).1.cellAt k.nC = p ∧
+      disjointL (k.hfVerts (p.getD 0 0)) (k.hfVerts (p.getD 1 0)) = true) :=
+  hexAddCell_checked_all_permutations k hfs c hi (fun hf hm => (hok.1 hf hm).1) hpq h p hp
+
+/-- the state of `demoOps2` before its first `add_cell`: eight vertices, six quads by `add_face(vertices)` -/
+def kQ : Kernel := hexRun {} (demoOps2.take 7)
+
+/-- non-vacuity: the mirrored list `[0, 2, 4, 6, 10, 8]` of `demoOps2` (re-ordered by the call) satisfies every
+    hypothesis of the four theorems; cross-check of the stored list by evaluation -/
+example :
+    (∃ vs rot, Frame (kQ.hexAddCell [0, 2, 4, 6, 10, 8] true).1 vs ((kQ.hexAddCell [0, 2, 4, 6, 10, 8] true).1.cellAt 0) rot) ∧
+    (kQ.hexAddCell [0, 2, 4, 6, 10, 8] true).1.hexOrthLayoutB 0 = true ∧
+    (∃ r, (kQ.hexAddCell [0, 2, 4, 6, 10, 8] true).1.hexVertices 0 = some r ∧
+      (kQ.hexAddCell [0, 2, 4, 6, 10, 8] true).1.hexVertsPatternB 0 r = true) ∧
+    (kQ.hexAddCell [10, 6, 0, 8, 2, 4] true).2 = some 0 ∧
+    (kQ.hexAddCell [0, 2, 4, 6, 10, 8] true).1.cellAt 0 = [0, 2, 10, 8, 4, 6] := by
+  have hi : Global.GInv kQ := (shape_reachable (demoOps2.take 7) (hexHistoryOK_of_B _ _ (by decide +kernel))).1
+  have hok : HexOpOK kQ (.base (.addCell true [0, 2, 4, 6, 10, 8])) := hexOpOK_of_B _ _ (by decide +kernel)
+  have hfb : kQ.fBU = true := by decide +kernel
+  have hpq : ∀ hf ∈ [0, 2, 4, 6, 10, 8], ProperQuad kQ hf := by
+    intro hf hm
+    have hb : [0, 2, 4, 6, 10, 8].all (fun hf => properQuadB kQ hf) = true := by decide +kernel
+    exact properQuad_of_B (List.all_eq_true.mp hb hf hm)
+  have hs : (kQ.hexAddCell [0, 2, 4, 6, 10, 8] true).2 = some 0 := by decide +kernel
+  have hn : kQ.nC = 0 := by decide +kernel
+  obtain ⟨vs, rot, F, _⟩ := checked_add_cell_is_frame kQ _ 0 hi hok hpq hs
+  have hp := (checked_add_cell_all_permutations kQ _ 0 hi hok hpq hs [10, 6, 0, 8, 2, 4] (by decide)).1
+  rw [hn] at hp
+  exact ⟨⟨vs, rot, F⟩, (checked_add_cell_shape_layout kQ _ 0 hi hok hpq hs).2,
+    checked_add_cell_hex_vertices kQ _ 0 hi hok hfb hpq hs, hp, by decide +kernel⟩
+
+/-- the same six quads with a second, parallel edge between the vertices 0 and 1 (`add_edge(v0, v1, allowDuplicates =
+    true)`; no face uses it) -/
+def opsQ2 : List HexOp := demoOps2.take 7 ++ [.base (.addEdge 0 1 true)]
+def kQ2 : Kernel := hexRun {} opsQ2
+
+/-- **a parallel edge does not matter**: with a second live edge between two of the cell's vertices (the hypothesis
+    `UniqEdges` of `add_cell_vertices_*` fails on this state) the checked call is accepted and the stored cell is a
+    `Frame`, with the layout and the `hex_vertices` pattern (cross-checked by evaluation) -/
+theorem checked_add_cell_frame_parallel_edge :
+    uniqEdgesB kQ2 [0, 1] = false ∧
+    (∃ vs rot, Frame (kQ2.hexAddCell [0, 2, 4, 6, 10, 8] true).1 vs ((kQ2.hexAddCell [0, 2, 4, 6, 10, 8] true).1.cellAt 0) rot) ∧
+    (kQ2.hexAddCell [0, 2, 4, 6, 10, 8] true).1.hexOrthLayoutB 0 = true := by
+  have hh : HexHistoryOK {} opsQ2 := hexHistoryOK_of_B _ _ (by decide +kernel)
+  have hi : Global.GInv kQ2 := (shape_reachable opsQ2 hh).1
+  have hok : HexOpOK kQ2 (.base (.addCell true [0, 2, 4, 6, 10, 8])) := hexOpOK_of_B _ _ (by decide +kernel)
+  have hpq : ∀ hf ∈ [0, 2, 4, 6, 10, 8], ProperQuad kQ2 hf := by
+    intro hf hm
+    have hb : [0, 2, 4, 6, 10, 8].all (fun hf => properQuadB kQ2 hf) = true := by decide +kernel
+    exact properQuad_of_B (List.all_eq_true.mp hb hf hm)
+  have hs : (kQ2.hexAddCell [0, 2, 4, 6, 10, 8] true).2 = some 0 := by decide +kernel
+  obtain ⟨vs, rot, F, _⟩ := checked_add_cell_is_frame kQ2 _ 0 hi hok hpq hs
+  exact ⟨by decide +kernel, ⟨vs, rot, F⟩, (checked_add_cell_shape_layout kQ2 _ 0 hi hok hpq hs).2⟩
+
+/-- non-vacuity of `checked_add_cell_cube_cycles`: its hypotheses hold on `kQ2`, where a parallel edge joins two of the
+    cell's vertices -/
+example : ∃ x0 x1 x2 x3 x4 x5 v0 v1 v2 v3 v4 v5 v6 v7,
+    (kQ2.hexAddCell [0, 2, 4, 6, 10, 8] true).1.cellAt 0 = [x0, x1, x2, x3, x4, x5] ∧ [v0, v1, v2, v3, v4, v5, v6, v7].Nodup ∧
+    Cyc kQ2 x0 [v3, v2, v1, v0] ∧ Cyc kQ2 x1 [v7, v6, v5, v4] ∧ Cyc kQ2 x2 [v1, v2, v6, v7] ∧
+    Cyc kQ2 x3 [v4, v5, v3, v0] ∧ Cyc kQ2 x4 [v1, v7, v4, v0] ∧ Cyc kQ2 x5 [v2, v3, v5, v6] := by
+  have hh : HexHistoryOK {} opsQ2 := hexHistoryOK_of_B _ _ (by decide +kernel)
+  have hi : Global.GInv kQ2 := (shape_reachable opsQ2 hh).1
+  have hok : HexOpOK kQ2 (.base (.addCell true [0, 2, 4, 6, 10, 8])) := hexOpOK_of_B _ _ (by decide +kernel)
+  have hpq : ∀ hf ∈ [0, 2, 4, 6, 10, 8], ProperQuad kQ2 hf := by
+    intro hf hm
+    have hb : [0, 2, 4, 6, 10, 8].all (fun hf => properQuadB kQ2 hf) = true := by decide +kernel
+    exact properQuad_of_B (List.all_eq_true.mp hb hf hm)
+  exact checked_add_cell_cube_cycles kQ2 _ 0 hi hok hpq (by decide +kernel)
+
+/-! ## Part 7: adjacent_halfface_on_sheet on hexahedra -/
+
+/-- **`adjacent_halfface_on_sheet(hf, he)` meets its specification on hexahedra** (hh:286-324, first way).
+    `SheetAdjSpec k hf he r` (OVM/Hex/SheetAdj.lean): `hf` lies in a cell `c` and contains `he`; `a` is the halfface of
+    `c` on the other side of `he`; `opp a` lies in a cell `n`; `r` is the halfface of `n`, other than `opp a`, that
+    contains the opposite of `he` — the continuation of `hf` on the sheet through `he`.
+    On a reachable state with face incidences, for two live `Frame` cells `c` (halffaces `xs`) and `n` (halffaces `ys`)
+    glued along the side face of `c` across the `j`-th halfedge of `xs[i]`: the function returns such an `r`, and `r` is
+    the ONLY halfface of `n` that contains the opposite of that halfedge. -/
+theorem adjacent_halfface_on_sheet_inside {k : Kernel} {vs xs ws ys : List Nat} {rot rot' : Nat → Nat}
+    (F : Frame k vs xs rot) (G : Frame k ws ys rot') {c n : Nat} (hg : Global.GInv k) (hb : k.fBU = true)
+    (hl : k.liveC c = true) (hl' : k.liveC n = true) (hcell : k.cellAt c = xs) (hcell' : k.cellAt n = ys)
+    {i j i' : Nat} (hi : i < 6) (hj : j < 4) (hi' : i' < 6)
+    (hglue : opp (xs.getD (rev i ((j + rot i) % 4)).1 0) = ys.getD i' 0) :
+    ∃ r, k.adjacentHalffaceOnSheet (xs.getD i 0) ((k.hfHes (xs.getD i 0)).getD j 0) = some r ∧
+      SheetAdjSpec k (xs.getD i 0) ((k.hfHes (xs.getD i 0)).getD j 0) r ∧
+      ∀ r', r' ∈ ys → opp ((k.hfHes (xs.getD i 0)).getD j 0) ∈ k.hfHes r' → r' = r :=
+  F.sheet_adj G hb hcell
+    (fun i hi => cellOf_of_ginv hg hb hl (by rw [hcell]; exact getD_mem_lt xs i (by rw [F.xlen]; exact hi))) hcell'
+    (fun i hi => cellOf_of_ginv hg hb hl' (by rw [hcell']; exact getD_mem_lt ys i (by rw [G.xlen]; exact hi))) hi hj hi' hglue
+
+/-- the second way of the C++: called with a boundary halfface `opp xs[i]` (no incident cell) and the halfedge
+    `opp he` it contains, the function walks on the other side and returns the OPPOSITE of the continuation of `xs[i]`
+    through `he` -/
+theorem adjacent_halfface_on_sheet_boundary {k : Kernel} {vs xs ws ys : List Nat} {rot rot' : Nat → Nat}
+    (F : Frame k vs xs rot) (G : Frame k ws ys rot') {c n : Nat} (hg : Global.GInv k) (hb : k.fBU = true)
+    (hl : k.liveC c = true) (hl' : k.liveC n = true) (hcell : k.cellAt c = xs) (hcell' : k.cellAt n = ys)
+    {i j i' : Nat} (hi : i < 6) (hj : j < 4) (hi' : i' < 6)
+    (hglue : opp (xs.getD (rev i ((j + rot i) % 4)).1 0) = ys.getD i' 0)
+    (hnone : k.cellOf (opp (xs.getD i 0)) = none) :
+    ∃ r, k.adjacentHalffaceOnSheet (opp (xs.getD i 0)) (opp ((k.hfHes (xs.getD i 0)).getD j 0)) = some (opp r) ∧
+      SheetAdjSpec k (xs.getD i 0) ((k.hfHes (xs.getD i 0)).getD j 0) r ∧
+      ∀ r', r' ∈ ys → opp ((k.hfHes (xs.getD i 0)).getD j 0) ∈ k.hfHes r' → r' = r :=
+  F.sheet_adj_boundary G hb hcell
+    (fun i hi => cellOf_of_ginv hg hb hl (by rw [hcell]; exact getD_mem_lt xs i (by rw [F.xlen]; exact hi))) hcell'
+    (fun i hi => cellOf_of_ginv hg hb hl' (by rw [hcell']; exact getD_mem_lt ys i (by rw [G.xlen]; exact hi))) hi hj hi' hglue hnone
+
+/-- non-vacuity: the two glued cubes of `demoOps` (the second one given rotated, the shared face pre-existing in
+    another rotation and used from its other side) are frames (`frameB`, executable test); from halfface 4 of the first
+    cube across its third halfedge the continuation is halfface 12 of the second cube, and from the boundary halfface 5
+    the answer is 13; cross-check by evaluation -/
+example :
+    let k := hexRun {} (demoOps.take 4)
+    (∃ r, k.adjacentHalffaceOnSheet 4 ((k.hfHes 4).getD 2 0) = some r ∧ SheetAdjSpec k 4 ((k.hfHes 4).getD 2 0) r) ∧
+    (∃ r, k.adjacentHalffaceOnSheet 5 (opp ((k.hfHes 4).getD 2 0)) = some (opp r)) ∧
+    k.adjacentHalffaceOnSheet 4 ((k.hfHes 4).getD 2 0) = some 12 ∧
+    k.adjacentHalffaceOnSheet 5 (opp ((k.hfHes 4).getD 2 0)) = some 13 := by
+  intro k
+  have hg : Global.GInv k := (shape_reachable (demoOps.take 4) (hexHistoryOK_of_B _ _ (by decide +kernel))).1
+  have hb : k.fBU = true := by decide +kernel
+  have F : Frame k [0, 1, 2, 3, 4, 5, 6, 7] [0, 2, 4, 6, 8, 10] (fun i => [0, 0, 0, 0, 0, 0].getD i 0) :=
+    frame_of_B (by decide +kernel)
+  have G : Frame k [7, 11, 10, 6, 4, 5, 9, 8] [12, 14, 16, 3, 18, 20] (fun i => [0, 0, 0, 3, 0, 0].getD i 0) :=
+    frame_of_B (by decide +kernel)
+  have hl : k.liveC 0 = true := by decide +kernel
+  have hl' : k.liveC 1 = true := by decide +kernel
+  have hc : k.cellAt 0 = [0, 2, 4, 6, 8, 10] := by decide +kernel
+  have hc' : k.cellAt 1 = [12, 14, 16, 3, 18, 20] := by decide +kernel
+  have hglue : opp ([0, 2, 4, 6, 8, 10].getD (rev 2 ((2 + (fun i => [0, 0, 0, 0, 0, 0].getD i 0) 2) % 4)).1 0) =
+      [12, 14, 16, 3, 18, 20].getD 3 0 := by decide
+  obtain ⟨r, h1, h2, _⟩ := adjacent_halfface_on_sheet_inside F G hg hb hl hl' hc hc' (i := 2) (j := 2) (i' := 3)
+    (by omega) (by omega) (by omega) hglue
+  obtain ⟨r', h3, _⟩ := adjacent_halfface_on_sheet_boundary F G hg hb hl hl' hc hc' (i := 2) (j := 2) (i' := 3)
+    (by omega) (by omega) (by omega) hglue (by decide +kernel)
+  exact ⟨⟨r, h1, h2⟩, ⟨r', h3⟩, by decide +kernel, by decide +kernel⟩
+
+/-! ## Part 8: the cube structure of EVERY live cell is an invariant of histories -/
+
+/-- **the cube structure of every live cell along every history through the public hex API** — all deletion modes,
+    the four index swaps, the shifting erase stages, garbage collection, mode switches.
+    `CubeAll k` (OVM/Hex/CubeAll.lean): every live cell's halfface list is in convention, a closed surface, and made of
+    proper loop quads (`CubeProp`; a Boolean predicate of the state, invariant under every consistent renaming of
+    halffaces / halfedges / vertices: `cubePred`).  `CubeHistoryOK`: valid arguments (`HexOpOK`) and `CubeOpOK` — for
+    `add_cell(8 vertices)` the conditions of `add_cell_vertices_conv`, for the topology-checked `add_cell(halffaces)`
+    that the given halffaces are proper loop quads, for the UNCHECKED `add_cell(halffaces, false)` — which stores what
+    it is given — the predicate itself as the caller's obligation; `set_*` not covered.
+    Conclusion: the invariant holds in the final state, and EVERY live cell of it — old or new, whatever happened to its
+    handles since it was created — consists of six loops through the vertex quadruples of the source tables of
+    `add_cell(8 vertices)` over eight distinct vertices (the classification `cycles_of_conv`, re-run on the final
+    state). -/
+theorem cube_structure_run_api (ops : List HexOp) (k : Kernel) (hi : Global.GInv k) (hq : CubeAll k)
+    (hr : CubeHistoryOK k ops) :
+    Global.GInv (hexRun k ops) ∧ CubeAll (hexRun k ops) ∧ ∀ c, (hexRun k ops).liveC c = true →
+      ∃ x0 x1 x2 x3 x4 x5 v0 v1 v2 v3 v4 v5 v6 v7, (hexRun k ops).cellAt c = [x0, x1, x2, x3, x4, x5] ∧
+        [v0, v1, v2, v3, v4, v5, v6, v7].Nodup ∧
+        Cyc (hexRun k ops) x0 [v3, v2, v1, v0] ∧ Cyc (hexRun k ops) x1 [v7, v6, v5, v4] ∧
+        Cyc (hexRun k ops) x2 [v1, v2, v6, v7] ∧ Cyc (hexRun k ops) x3 [v4, v5, v3, v0] ∧
+        Cyc (hexRun k ops) x4 [v1, v7, v4, v0] ∧ Cyc (hexRun k ops) x5 [v2, v3, v5, v6] := by
+  obtain ⟨hg, ha⟩ := cube_run ops k hi hq hr
+  exact ⟨hg, ha, fun c hl => cubeAll_cycles hg ha hl⟩
+
+/-- **`orthogonal_orientation` layout on every live cell of every reachable state**: after any history through the
+    public API from the empty mesh, every live cell `c` of the final state is a `Frame`, hence has the layout the
+    generated `orthogonal_orientation` table describes -/
+theorem layout_on_reachable_states (ops : List HexOp) (hr : CubeHistoryOK {} ops) (c : Nat)
+    (hl : (hexRun {} ops).liveC c = true) :
+    (∃ vs rot, Frame (hexRun {} ops) vs ((hexRun {} ops).cellAt c) rot) ∧ (hexRun {} ops).hexOrthLayoutB c = true := by
+  obtain ⟨hg, ha⟩ := cube_run ops {} Global.ginv_empty cubeAll_empty hr
+  exact ⟨cubeAll_frame hg ha hl, cubeAll_layout hg ha hl⟩
+
+/-- **`hex_vertices` on every live cell of every reachable state** reports the documented cube pattern (face
+    incidences enabled in the final state) -/
+theorem hex_vertices_on_reachable_states (ops : List HexOp) (hr : CubeHistoryOK {} ops) (c : Nat)
+    (hb : (hexRun {} ops).fBU = true) (hl : (hexRun {} ops).liveC c = true) :
+    ∃ r, (hexRun {} ops).hexVertices c = some r ∧ (hexRun {} ops).hexVertsPatternB c r = true := by
+  obtain ⟨hg, ha⟩ := cube_run ops {} Global.ginv_empty cubeAll_empty hr
+  exact cubeAll_pattern hg ha hb hl
+
+/-- non-vacuity (facts evaluated in OVM/Hex/CubeAllDemo.lean): `cubeDemoOps` = `demoOps` creates two glued cubes,
+    deletes the second one by an immediate index-shifting `delete_face`, swaps face and edge indices, deletes a vertex
+    in deferred mode and collects garbage; the cell that survives is the OLD first cube under other handles
+    (`[8, 2, 4, 6, 0, 10]`), and the three theorems apply to it.  `cubeDemoOps2` = `demoOps2` creates its cells through
+    the topology-checked `add_cell(halffaces)`. -/
+example : cubeDemoOps = demoOps ∧ cubeDemoOps2 = demoOps2 ∧
+    (hexRun {} demoOps).cells = [[8, 2, 4, 6, 0, 10]] ∧ CubeAll (hexRun {} demoOps) ∧ CubeAll (hexRun {} demoOps2) ∧
+    (∃ vs rot, Frame (hexRun {} demoOps) vs ((hexRun {} demoOps).cellAt 0) rot) ∧
+    (hexRun {} demoOps).hexOrthLayoutB 0 = true ∧
+    (∃ r, (hexRun {} demoOps).hexVertices 0 = some r ∧ (hexRun {} demoOps).hexVertsPatternB 0 r = true) ∧
+    (hexRun {} demoOps2).hexOrthLayoutB 0 = true := by
+  have e1 : cubeDemoOps = demoOps := rfl
+  have e2 : cubeDemoOps2 = demoOps2 := rfl
+  rw [← e1, ← e2]
+  have L := layout_on_reachable_states cubeDemoOps cubeDemo_history 0 cubeDemo_final.2.1
+  exact ⟨rfl, rfl, cubeDemo_final.1, (cube_structure_run_api _ _ Global.ginv_empty cubeAll_empty cubeDemo_history).2.1,
+    (cube_structure_run_api _ _ Global.ginv_empty cubeAll_empty cubeDemo2_history).2.1, L.1, L.2,
+    hex_vertices_on_reachable_states cubeDemoOps cubeDemo_history 0 cubeDemo_final.2.2 cubeDemo_final.2.1,
+    (layout_on_reachable_states cubeDemoOps2 cubeDemo2_history 0 cubeDemo2_final.2.1).2⟩
 
 end OVM.Props.C16
